@@ -265,15 +265,170 @@ fn case(tier: Tier, rng: &mut Rng, rep: &mut Report) {
     }
 }
 
+
+/// application-level slice: the restriction files are read by the real builders from the [frontier] section of the
+/// TOML and the query parameters (road_classes, vehicle_parameters) travel through CompassApp::run. only plain forward
+/// vertex-oriented searches with an admissible heuristic: the variants without a listed finding
+fn app_case(case_no: usize, rng: &mut Rng, rep: &mut Report) {
+    use crate::appgen::{build_app, AppSpec, OutputPlugin};
+    use crate::hooks::catch;
+    use crate::oracle::graph::reachable;
+    let mut p = WorldParams::default();
+    p.net.min_v = 5;
+    p.net.max_v = 22;
+    p.net.metric = true;
+    p.net.p_blocks = 0.1;
+    p.allow_turn_delay = false;
+    p.surcharges = false;
+    let mut world = gen_world(rng, &p);
+    for (_, r) in world.cost.vehicle_rates.iter_mut() {
+        if let routee_compass_core::model::cost::vehicle::vehicle_cost_rate::VehicleCostRate::Combined(_) = r {
+            *r = routee_compass_core::model::cost::vehicle::vehicle_cost_rate::VehicleCostRate::Factor { factor: 2.5 };
+        }
+    }
+    let net = world.net.clone();
+    let mut r = gen_edge_local(rng, &net);
+    let mut has_turns = false;
+    if rng.chance(0.5) {
+        let mut turn_pairs: Vec<(usize, usize)> = vec![];
+        let share = rng.frange(0.05, 0.4);
+        for a in 0..net.ne() {
+            for b in 0..net.ne() {
+                if a != b && net.edges[a].dst == net.edges[b].src && rng.chance(share) {
+                    turn_pairs.push((a, b));
+                }
+            }
+        }
+        if !turn_pairs.is_empty() {
+            has_turns = true;
+            let tcfg = FrontierCfg::Turn { pairs: turn_pairs };
+            r.cfg = match r.cfg {
+                FrontierCfg::None => tcfg,
+                FrontierCfg::Combined(mut v) => {
+                    v.insert(rng.below(v.len() + 1), tcfg);
+                    FrontierCfg::Combined(v)
+                }
+                other => {
+                    if rng.chance(0.5) {
+                        FrontierCfg::Combined(vec![other, tcfg])
+                    } else {
+                        FrontierCfg::Combined(vec![tcfg, other])
+                    }
+                }
+            };
+        }
+    }
+    world.frontier = r.cfg.clone();
+    let kind = kind_of(&world.frontier);
+    let alg = rng.pick(&[Alg::Dijkstra, Alg::AStar(None), Alg::AStar(Some(1.0)), Alg::AStar(Some(0.0))]).clone();
+    let mut spec = AppSpec::basic(world.clone(), alg.clone());
+    spec.parallelism = rng.urange(1, 4);
+    spec.output_plugins = vec![OutputPlugin::Summary, OutputPlugin::Traversal { route: Some("edge_id".into()), tree: Some("edge_id".into()) }];
+    let built = match catch(|| build_app(&spec, "c04")) {
+        Ok(Ok(b)) => b,
+        Ok(Err(e)) => {
+            rep.violate(&format!("C04|app|CompassApp::try_from|load-error|{kind}"), format!("a well-formed [frontier] section was refused: {}", e.lines().next().unwrap_or("")), || json!({"toml": e}));
+            return;
+        }
+        Err(pm) => {
+            rep.violate(&format!("C04|app|CompassApp::try_from|{}", crate::hooks::panic_sig(&pm)), pm, || json!({}));
+            return;
+        }
+    };
+    let restricted: HashSet<(usize, usize)> = oracle_restricted_turns(&world.frontier).into_iter().collect();
+    let mut queries = vec![];
+    let mut ods = vec![];
+    for i in 0..6 {
+        let with_dest = rng.chance(0.85);
+        let (o, d) = match gen_vertex_od(rng, &net, with_dest) {
+            Od::Vertex(o, d) if Some(o) != d => (o, d),
+            _ => continue,
+        };
+        let mut q = r.query_fields.clone();
+        q.insert("qid".into(), json!(format!("f{case_no}q{i}")));
+        q.insert("origin_vertex".into(), json!(o));
+        if let Some(d) = d {
+            q.insert("destination_vertex".into(), json!(d));
+        }
+        queries.push(serde_json::Value::Object(q));
+        ods.push((o, d));
+    }
+    if queries.is_empty() {
+        return;
+    }
+    let responses = match catch(|| built.app.run(queries.clone(), None)) {
+        Ok(Ok(v)) => v,
+        Ok(Err(e)) => {
+            rep.violate("C04|app|run-returns-err", format!("run() failed: {e}"), || json!({"toml": built.toml, "batch": queries}));
+            return;
+        }
+        Err(pm) => {
+            rep.violate(&format!("C04|app|{}", crate::hooks::panic_sig(&pm)), pm, || json!({"toml": built.toml, "batch": queries}));
+            return;
+        }
+    };
+    for (q, (o, d)) in queries.iter().zip(&ods) {
+        rep.eval();
+        let qid = q["qid"].as_str().unwrap_or("");
+        let resp = match responses.iter().find(|x| x["request"]["qid"].as_str() == Some(qid)) {
+            Some(x) => x,
+            None => continue,
+        };
+        let replay = || json!({"toml": built.toml, "query": q, "frontier": crate::world::frontier_json(&world.frontier), "allowed_edges": r.allowed, "response_route": resp["route"]["path"], "response_error": resp.get("error")});
+        if let Some(e) = resp.get("error") {
+            let text = e.to_string();
+            // without turn restrictions reachability over the permitted edges is path independent
+            if let (Some(d), false, true) = (d, has_turns, text.contains("no path")) {
+                if reachable(&net, &r.allowed, *o, true)[*d] {
+                    rep.violate(&format!("C04|app|no-path-although-a-permitted-path-exists|{kind}"), format!("vertex {d} is reachable from {o} over permitted edges, the response says {}", text.chars().take(200).collect::<String>()), replay);
+                    continue;
+                }
+            }
+            if !text.contains("no path") {
+                rep.count("app_queries_refused_for_other_reasons", 1);
+            }
+            rep.count("app_error_responses", 1);
+            continue;
+        }
+        let ids: Vec<usize> = resp["route"]["path"].as_array().map(|a| a.iter().filter_map(|x| x.as_u64().map(|v| v as usize)).collect()).unwrap_or_default();
+        let tree: Vec<usize> = resp["tree"].as_array().map(|a| a.iter().filter_map(|x| x.as_u64().map(|v| v as usize)).collect()).unwrap_or_default();
+        if let Some(e) = ids.iter().find(|e| **e >= net.ne() || !r.allowed[**e]) {
+            let why = if *e < net.ne() { refusing(&world.frontier, q, net.ne(), *e).join("+") } else { "unknown-edge".into() };
+            rep.violate(&format!("C04|app|route-uses-forbidden-edge|{why}"), format!("F1/F2 route {ids:?} uses edge {e} which the query may not use ({why})"), replay);
+            continue;
+        }
+        if let Some(w) = ids.windows(2).find(|w| restricted.contains(&(w[0], w[1]))) {
+            rep.violate("C04|app|restricted-turn|plain-forward-search", format!("F4 route {ids:?} takes the listed turn {} -> {}", w[0], w[1]), replay);
+            continue;
+        }
+        if let Some(e) = tree.iter().find(|e| **e >= net.ne() || !r.allowed[**e]) {
+            let why = if *e < net.ne() { refusing(&world.frontier, q, net.ne(), *e).join("+") } else { "unknown-edge".into() };
+            rep.violate(&format!("C04|app|tree-uses-forbidden-edge|{why}"), format!("F1/F2 the tree uses edge {e} which the query may not use ({why})"), replay);
+            continue;
+        }
+        rep.count("app_routes_and_trees_checked", 1);
+        rep.count("app_tree_edges_checked", tree.len() as u64);
+        rep.seen("app_frontier_kinds", kind.clone());
+        // non-trivial: some edge is forbidden and the unrestricted network offers it on a path from the origin
+        let free = vec![true; net.ne()];
+        let reach_free = reachable(&net, &free, *o, true);
+        if (0..net.ne()).any(|e| !r.allowed[e] && reach_free[net.edges[e].src]) || (has_turns && ids.len() >= 2) {
+            rep.nontrivial(hash_str(&format!("app|{}|{kind}|{o}|{d:?}|{ids:?}", net.ne())));
+            rep.sample(|| json!({"level": "application", "frontier": kind, "query": q, "route": ids, "tree_edges": tree.len(), "forbidden_edges": r.allowed.iter().filter(|a| !**a).count(), "restricted_turns": restricted.len()}));
+        }
+    }
+}
+
 pub fn run(tier: Tier, seed: u64) -> MonOut {
     let n = tier.n(30_000, 1_000_000);
-    let mut rep = par_cases(seed, n, |_i, rng, rep| case(tier, rng, rep));
+    // one case in 40 goes through the application: restriction files read by the real builders, parameters from the query
+    let mut rep = par_cases(seed, n, |i, rng, rep| if i % 40 == 39 { app_case(i, rng, rep) } else { case(tier, rng, rep) });
     let mut d = Report::new();
     super::c01::run_directed("C04", &mut d, check_query);
     rep.merge(d);
     MonOut {
         report: rep,
-        rule: "generated networks with the real frontier models built through their services from a query: road classes (numeric or mapped names), vehicle restrictions (mixed units, limits >= 1 % from the vehicle value or exactly equal in equal units), restricted-turn lists (5..40 % of the consecutive edge pairs plus non-consecutive decoys), their combinations in either order, optionally wrapped in an edge cut set; 8 queries per network over all algorithms, vertex/edge orientation, forward/reverse. oracle = generator's raw restriction inputs: every route and tree edge must be permitted, no two consecutive route edges (travel order) may form a listed turn. non-trivial = a restriction exists and the result has a route of >= 2 edges or a tree of >= 3 entries; distinct by (network, algorithm, od, direction, restriction kind, route)".into(),
+        rule: "generated networks with the real frontier models built through their services from a query: road classes (numeric or mapped names), vehicle restrictions (mixed units, limits >= 1 % from the vehicle value or exactly equal in equal units), restricted-turn lists (5..40 % of the consecutive edge pairs plus non-consecutive decoys), their combinations in either order, optionally wrapped in an edge cut set; 8 queries per network over all algorithms, vertex/edge orientation, forward/reverse. oracle = generator's raw restriction inputs: every route and tree edge must be permitted, no two consecutive route edges (travel order) may form a listed turn. application-level slice (1 case in 40): the same restriction inputs written to road-class / vehicle-restriction / turn-restriction files and a [frontier] section, read by the real builders, queries with road_classes / vehicle_parameters through CompassApp::run (plain forward vertex searches, admissible heuristic), route and tree in edge_id format checked against the same masks, plus 'no path' only when no permitted path exists (configurations without turn restrictions). non-trivial = a restriction exists and the result has a route of >= 2 edges or a tree of >= 3 entries; distinct by (network, algorithm, od, direction, restriction kind, route)".into(),
         assumptions: vec![
             "the origin and destination edges of edge-oriented queries are drawn from the permitted set and are exempt from the per-edge clause (the wrappers never consult the frontier for them)".into(),
             "vehicle comparisons are decided with an independent SI table; boundary cases within 1 % are not generated except exact equality in equal units".into(),
